@@ -24,6 +24,8 @@ def it_world():
         LeafSpec("E0", e, ABCN, (), min_rows=0, max_rows=0),
         LeafSpec("Eloose", e, ABCN, (), min_rows=0, max_rows=3),
         LeafSpec("L2", e, ABCN, SIB),
+        LeafSpec("LC", e, ABCN, RICH, special="chained"),
+        LeafSpec("ELtwin", e, ABCN, SIB, min_rows=0, max_rows=3, leaf_name="Eloose"),  # equal to Eloose, but has rows
         LeafSpec("D0", e, ABCN, (), special="doomed"),
         LeafSpec("I0", e, (), ((),), special="identity"),
     )
@@ -154,6 +156,7 @@ def sql_world():
         LeafSpec("Etwin", s, ABC, XROWS, leaf_name="E"),  # compares equal to E (bounds and payload are not compared)
         LeafSpec("E", s, ABC, (), min_rows=0, max_rows=0),
         LeafSpec("Eloose", s, ABC, (), min_rows=0, max_rows=3),
+        LeafSpec("ELtwin", s, ABC, YROWS[:2], min_rows=0, max_rows=3, leaf_name="Eloose"),  # equal to Eloose, but has rows
         LeafSpec("D0", s, ABC, (), special="doomed"),
         LeafSpec("I0", s, (), ((),), special="identity"),
     )
